@@ -101,7 +101,7 @@ def norm(v: Any, depth: int = 0) -> Any:
 def outcome(o: codecrun.Outcome) -> Tuple:
     if o.ok:
         return ("ok", norm(o.value))
-    return ("exc", o.exc_type)
+    return ("exc", o.exc_type, o.exc_family)
 
 
 def odd_layer() -> Dict[str, Any]:
@@ -357,7 +357,116 @@ def child_main(mode: str, tier: str, seed: int, out_path: str) -> None:
                      [o[3] for o in all_ops]), f)
 
 
+def cli_child(out_path: str) -> None:
+    """In-process runs of the command line entry point: the flag it sets for the tool has to
+    take effect for that run and the application's own setting has to be back afterwards,
+    however the tool ends (return, exception, sys.exit)."""
+    import contextlib
+    import io
+    import zipfile
+    common.setup_paths()
+    import odxtools.exceptions as ex
+    import odxtools.cli.main as cli
+    from .. import odxgen
+    tmp = tempfile.mkdtemp(prefix="c17cli-")
+    results: List[Tuple] = []
+    try:
+        good = os.path.join(common.REPO, "examples", "somersault.pdx")
+        corrupt = os.path.join(tmp, "corrupt.pdx")
+        with open(corrupt, "wb") as f:
+            f.write(b"PK\x03\x04 this is not a zip archive")
+        # a database that only the lenient mode loads: a service with an unknown ADDRESSING
+        model = odxgen.simple_layer("clil", [], [{"name": "rq", "params": [odxgen.u8const("sid", 0x10)]}])
+        lenient_only = os.path.join(tmp, "lenient_only.pdx")
+        docs = odxgen.emit_container({"name": "c_clil", "layers": [model]})
+        if "<DIAG-SERVICE " not in docs:
+            raise RuntimeError("generator no longer emits <DIAG-SERVICE ...>")
+        docs = docs.replace("<DIAG-SERVICE ", '<DIAG-SERVICE ADDRESSING="BOGUS" ', 1)
+        with zipfile.ZipFile(lenient_only, "w") as z:
+            z.writestr("clil.odx-d", docs)
+        scenarios = [("ok", good), ("missing", os.path.join(tmp, "nope.pdx")), ("corrupt", corrupt),
+                     ("lenient-only", lenient_only), ("version", None), ("no-command", None)]
+        for initial in (True, False):
+            for nostrict in (False, True):
+                for name, path in scenarios:
+                    ex.strict_mode = initial
+                    argv = ["odxtools"] + (["--no-strict"] if nostrict else [])
+                    if name == "version":
+                        argv += ["--version"]
+                    elif name != "no-command":
+                        argv += ["list", path]
+                    old_argv = sys.argv
+                    sys.argv = argv
+                    buf = io.StringIO()
+                    try:
+                        with contextlib.redirect_stdout(buf), contextlib.redirect_stderr(buf):
+                            with warnings_ignored():
+                                cli.start_cli()
+                        res = "returned"
+                    except SystemExit:
+                        res = "exit"
+                    except BaseException as e:  # noqa
+                        res = "raised:" + codecrun.family(e)
+                    finally:
+                        sys.argv = old_argv
+                    results.append((initial, nostrict, name, res, ex.strict_mode))
+    finally:
+        import shutil
+        shutil.rmtree(tmp, ignore_errors=True)
+    with open(out_path, "wb") as f:
+        pickle.dump(results, f)
+
+
+@__import__("contextlib").contextmanager
+def warnings_ignored() -> Any:
+    import warnings
+    with warnings.catch_warnings():
+        warnings.simplefilter("ignore")
+        yield
+
+
+def cli_leg(col: common.Collector) -> None:
+    tmp = tempfile.mkdtemp(prefix="c17-")
+    out = os.path.join(tmp, "cli.pkl")
+    try:
+        p = subprocess.run([sys.executable, "-c",
+                            "import sys; sys.path.insert(0, %r); from vf.checks import c17; "
+                            "c17.cli_child(%r)" % (common.ROOT, out)],
+                           cwd=common.ROOT, env=dict(os.environ), capture_output=True, timeout=600)
+        if p.returncode != 0 or not os.path.exists(out):
+            col.fail_inconclusive("CLI child failed: " + p.stderr.decode(errors="replace")[-600:])
+            return
+        with open(out, "rb") as f:
+            results = pickle.load(f)
+    finally:
+        import shutil
+        shutil.rmtree(tmp, ignore_errors=True)
+    seen = {}
+    for initial, nostrict, name, res, after in results:
+        col.ev()
+        col.nontrivial(("cli", initial, nostrict, name, res))
+        col.count("cli-runs")
+        seen[(initial, nostrict, name)] = res
+        if after is not initial:
+            col.violation(("cli-leaves-mode-changed", "after-" + res.split(":")[0]),
+                          {"initial_strict_mode": initial, "no_strict_option": nostrict,
+                           "scenario": name, "tool_ended": res, "strict_mode_afterwards": after})
+    for initial in (True, False):
+        # the option decides for the run, whatever the application's own setting is
+        if seen.get((initial, False, "lenient-only")) == "returned":
+            col.violation(("cli-strict-run-is-lenient", "list"),
+                          {"initial_strict_mode": initial, "scenario": "lenient-only",
+                           "problem": "a database with an unknown ADDRESSING loads without --no-strict"})
+        if seen.get((initial, True, "lenient-only")) not in ("returned",):
+            col.violation(("cli-lenient-run-is-strict", "list"),
+                          {"initial_strict_mode": initial, "scenario": "lenient-only",
+                           "tool_ended": seen.get((initial, True, "lenient-only"))})
+        if seen.get((initial, False, "ok")) != "returned" or seen.get((initial, True, "ok")) != "returned":
+            col.fail_inconclusive("the list tool does not run on the shipped example")
+
+
 def run(tier: str, col: common.Collector) -> None:
+    cli_leg(col)
     seed = common.seed()
     tmp = tempfile.mkdtemp(prefix="c17-")
     data: Dict[str, Any] = {}
@@ -417,6 +526,20 @@ def run(tier: str, col: common.Collector) -> None:
             if l0 != s:
                 col.violation(("lenient-changes-valid-result", kind),
                               dict(desc(i), strict=s, lenient=l0))
+        elif kind != "enc" and s[2] != "foreign":
+            col.count("strict-reports-on-decode")
+            if l0[0] == "ok":
+                col.count("downgraded-and-returned")
+        if kind != "enc" and s[0] == "exc" and s[2] != "foreign" and l0[0] == "exc" and \
+                l0[2] == "foreign":
+            # "a problem reported as an error in strict mode is downgraded in non-strict mode":
+            # downgraded means the call goes on (returns, or reports another problem of the
+            # library's own kind) - not that it dies of a foreign exception because the code
+            # after the downgraded report was not prepared to be reached.  Judged for decoding
+            # only: every byte string is a legitimate input there, whereas the encode corpus
+            # contains wrongly typed values with which a lenient encoder cannot go on anyway
+            col.violation(("lenient-crashes-where-strict-reports", kind, l0[1]),
+                          dict(desc(i), strict=s, lenient=l0))
         # immediacy
         s2l = data["S2L"][1][i]
         col.ev()
